@@ -21,7 +21,9 @@ P = {
          "Decides, for every byte sequence a control client can send, the structural clauses of C08: no comma-less type assertion on a value taken out of a JSON container anywhere in the control cone (384 functions); no compiler-unproven index/slice in session/command-parsing code without a stated idiom and none at all in the session loop; no explicit panic; no call made while a unit-index/work-type/status/control-function lock may be held whose same-goroutine callees acquire that lock again (self-deadlock, including RLock under RLock); assuming any of the seven failure sources of a request line fails, every path to the next read or return passes an ERROR-prefixed reply; no client socket I/O with a shared lock held. It does not decide memory growth, latency or replies of remote nodes.",
          "Trusts go/types, go/ssa, VTA, the compiler's prove pass, and the stated contracts (json.Unmarshal container shapes; typed ExtraData invariant)."),
  "C09": (False, "edge-cut inside the verifier closure; role/option agreement tables; who-may on InsecureSkipVerify and ReceptorVerifyFunc call sites", "", ""),
- "C10": (False, "single relay site (who-may), positive-budget edge cut, decrement value identity, expiry notice constants", "", ""),
+ "C10": (True, "who-may tables (single relay site, senders to a connection, budget-field writers), positive-budget SSA edge cut, value identity of the decremented buffer that is sent, expiry-notice path rule and constant agreement",
+         "Decides, for every packet and routing state, the inductive core of the hop bound: forwardMessage is the only relay site and is called only from handleMessageData; only it sends data-typed buffers to a connection; its send is unreachable unless md.HopsToLive > 0; the buffer sent is the encoder's output for the same packet with byte 1 decremented exactly once on every path; the budget field is written only by the decoder (from byte 1) and by SendMessageWithHopsToLive (the caller's value, unmodified, as set by SetHopsToLive/WriteTo); the budget-exhausted edge never reaches the relay and notifies md.FromNode with the four address fields and the 'message expired' constant that traceroute tests for. It does not decide 'reaches iff d <= h' on concrete topologies.",
+         "Trusts go/types, go/ssa; byte arithmetic on a positive budget."),
  "C11": (True, "SSA edge cuts with flag threading on the single connection-table insertion (admission tests), lockset atomicity of presence scan + insertion, removal on every exit after insertion and never before it, who-may tables, disconnect-on-mismatch path rules",
          "Decides, for every handshake byte sequence and every schedule, the structural clauses of C11 in runProtocol: one insertion site and one deletion site for the connection table; the insertion is unreachable unless the announced ID is non-empty, differs from the local ID, is on the allow-list when one is set, and the presence scan completed without a hit; scan and insertion share one connLock write section with no release in between; the announced ID is never removed before this session inserted it; every exit after the insertion passes removeConnection with the session's ID; routing updates are handed on only under the established ID; an ID change, a cost disagreement or a reject message leaves the receive loop; self-shutdown needs a duplicate notice naming our epoch. It does not decide outcomes of real handshake races between two nodes.",
          "Trusts go/types, go/ssa, sync.RWMutex semantics; path feasibility is approximated by threading boolean flag phis and constant bool cells only."),
